@@ -1,17 +1,17 @@
-(* Tie/Cargo.v — the generated translation of pkg/ecosystem/cargo (Gen/Code/Cargo.v) against the
-   model (Eco/Cargo).  comparePrereleaseIdentifiers (strings.Split + loop) is outside the
-   translated fragment: Compare and the range predicates are tied generically in it. *)
+(* Tie/Cargo.v — VERSION level: the generated translation of pkg/ecosystem/cargo
+   (Gen/Code/Cargo.v) against the model (Eco/Cargo/Version).  comparePrereleaseIdentifiers
+   (strings.Split + loop) is outside the translated fragment: Compare is tied generically in it.
+   The range-level ties are in Tie/CargoRange.v (which depends on this file, never the other
+   way round). *)
 From Coq Require Import ZArith List Bool Lia.
 From Verif.Base Require Import Bytes GoNum GoOps Ord.
-From Verif.Eco Require Import RangeCore.
-From Verif.Eco.Cargo Require Version Range.
+From Verif.Eco.Cargo Require Version.
 From Verif.Gen.Code Require Cargo.
 From Verif.Tie Require Import Tactics.
 Import ListNotations.
 
 Module G := Verif.Gen.Code.Cargo.
 Module M := Verif.Eco.Cargo.Version.
-Module R := Verif.Eco.Cargo.Range.
 
 Definition abs (v : G.Version) : M.core :=
   {| M.major := G.Version_major v; M.minor := G.Version_minor v; M.patch := G.Version_patch v;
@@ -37,38 +37,5 @@ Section Compare.
   Theorem tie_cargo_compare : forall a b,
     G.Version_Compare cpi a b = Z_of_cmp (M.cmp_core (abs a) (abs b)).
   Proof. tie_solve_with cpi_model. Qed.
-
-  (* range predicates, for any Compare (it stays folded) *)
-  Local Opaque G.Version_Compare.
-
-  Theorem tie_cargo_caret : forall v c p,
-    G.satisfiesCaretConstraint cpi v c (Z.of_nat p) =
-    match cmp_of_Z (G.Version_Compare cpi v c) with
-    | Lt => false
-    | _ => R.caret_fields p (abs v) (abs c)
-    end.
-  Proof. tie_solve. Qed.
-
-  Theorem tie_cargo_tilde : forall v c p,
-    G.satisfiesTildeConstraint cpi v c (Z.of_nat p) =
-    match cmp_of_Z (G.Version_Compare cpi v c) with
-    | Lt => false
-    | _ => R.tilde_fields p (abs v) (abs c)
-    end.
-  Proof. tie_solve. Qed.
-
-  (* the comparator cases of satisfiesConstraint *)
-  Local Opaque G.satisfiesCaretConstraint G.satisfiesTildeConstraint.
-  Theorem tie_cargo_satisfiesConstraint : forall v c,
-    G.satisfiesConstraint cpi v c =
-    if beq (G.constraint_operator c) $"^" then
-      G.satisfiesCaretConstraint cpi v (G.constraint_version c) (G.constraint_precision c)
-    else if beq (G.constraint_operator c) $"~" then
-      G.satisfiesTildeConstraint cpi v (G.constraint_version c) (G.constraint_precision c)
-    else sat (sem6 (G.constraint_operator c)) (cmp_of_Z (G.Version_Compare cpi v (G.constraint_version c))).
-  Proof. tie_solve. Qed.
 End Compare.
 Print Assumptions tie_cargo_compare.
-Print Assumptions tie_cargo_caret.
-Print Assumptions tie_cargo_tilde.
-Print Assumptions tie_cargo_satisfiesConstraint.
